@@ -6,6 +6,7 @@ import (
 	"go/token"
 	"go/types"
 	"hash/crc32"
+	"sort"
 	"strings"
 
 	"golang.org/x/tools/go/ssa"
@@ -24,12 +25,12 @@ type RType struct{ T types.Type }
 
 func init() {
 	intrinsics = map[string]intrinsic{
-		rtPkg + "Byte":   func(e *Engine, _ *frame, _ token.Pos, a []Value) Value { return e.input(a[0], 8) },
-		rtPkg + "U16":    func(e *Engine, _ *frame, _ token.Pos, a []Value) Value { return e.input(a[0], 16) },
-		rtPkg + "U32":    func(e *Engine, _ *frame, _ token.Pos, a []Value) Value { return e.input(a[0], 32) },
-		rtPkg + "U64":    func(e *Engine, _ *frame, _ token.Pos, a []Value) Value { return e.input(a[0], 64) },
-		rtPkg + "Int":    func(e *Engine, _ *frame, _ token.Pos, a []Value) Value { return e.input(a[0], 64) },
-		rtPkg + "Bool":   func(e *Engine, _ *frame, _ token.Pos, a []Value) Value { return e.input(a[0], 0) },
+		rtPkg + "Byte":    func(e *Engine, _ *frame, _ token.Pos, a []Value) Value { return e.input(a[0], 8) },
+		rtPkg + "U16":     func(e *Engine, _ *frame, _ token.Pos, a []Value) Value { return e.input(a[0], 16) },
+		rtPkg + "U32":     func(e *Engine, _ *frame, _ token.Pos, a []Value) Value { return e.input(a[0], 32) },
+		rtPkg + "U64":     func(e *Engine, _ *frame, _ token.Pos, a []Value) Value { return e.input(a[0], 64) },
+		rtPkg + "Int":     func(e *Engine, _ *frame, _ token.Pos, a []Value) Value { return e.input(a[0], 64) },
+		rtPkg + "Bool":    func(e *Engine, _ *frame, _ token.Pos, a []Value) Value { return e.input(a[0], 0) },
 		rtPkg + "MathInt": func(e *Engine, _ *frame, _ token.Pos, a []Value) Value { return e.input(a[0], -1) },
 		rtPkg + "Bytes": func(e *Engine, _ *frame, _ token.Pos, a []Value) Value {
 			name := a[0].(string)
@@ -155,13 +156,17 @@ func init() {
 			e.dirs[a[0].(string)] = e.sliceElems(a[1])
 			return nil
 		},
+		rtPkg + "TaskRangesPartition": func(e *Engine, _ *frame, _ token.Pos, a []Value) Value {
+			e.taskRangesPartition(asT(a[0]))
+			return nil
+		},
 		rtPkg + "SetCwd": func(e *Engine, _ *frame, _ token.Pos, a []Value) Value {
 			e.cwd = a[0].(string)
 			return nil
 		},
 		rtPkg + "GuardsIntact": func(e *Engine, _ *frame, _ token.Pos, a []Value) Value { return term.True },
-		rtPkg + "IsSymbolic": func(e *Engine, _ *frame, _ token.Pos, a []Value) Value { return term.True },
-		rtPkg + "Register":   func(e *Engine, _ *frame, _ token.Pos, a []Value) Value { return nil },
+		rtPkg + "IsSymbolic":   func(e *Engine, _ *frame, _ token.Pos, a []Value) Value { return term.True },
+		rtPkg + "Register":     func(e *Engine, _ *frame, _ token.Pos, a []Value) Value { return nil },
 		rtPkg + "MapOrderAdversarial": func(e *Engine, _ *frame, _ token.Pos, a []Value) Value {
 			tag := a[0].(string)
 			e.mapOrder = func(order []int) []int {
@@ -185,41 +190,58 @@ func init() {
 			return nil
 		},
 
-		"crypto/md5.Sum":            md5Sum,
-		"hash/crc32.ChecksumIEEE":   crcIEEE,
-		"reflect.TypeOf":            func(e *Engine, _ *frame, _ token.Pos, a []Value) Value { return Iface{T: rtypeMarker, V: RType{a[0].(Iface).T}} },
-		"internal/reflectlite.TypeOf": func(e *Engine, _ *frame, _ token.Pos, a []Value) Value { return Iface{T: rtypeMarker, V: RType{a[0].(Iface).T}} },
-		"reflect.DeepEqual":         func(e *Engine, _ *frame, _ token.Pos, a []Value) Value { return e.deepEqual(a[0], a[1]) },
-		"sort.Slice":                sortSlice,
-		"sort.SliceStable":          sortSlice,
-		"sort.SliceIsSorted":        sortSliceIsSorted,
-		"sort.Ints":                 sortInts,
-		"sort.Strings":              sortStrings,
-		"(*sync.WaitGroup).Add":     func(e *Engine, _ *frame, _ token.Pos, a []Value) Value { e.wgAdd += int(asT(a[1]).SVal()); return nil },
-		"(*sync.WaitGroup).Done":    func(e *Engine, _ *frame, _ token.Pos, a []Value) Value { e.wgAdd--; return nil },
-		"(*sync.WaitGroup).Wait":    wgWait,
-		"os.IsNotExist":             osIsNotExist,
-		"os.Lstat":                  osStat,
-		"os.Stat":                   osStat,
-		"os.Open":                   osOpen,
-		"(*os.File).Readdirnames":   osReaddirnames,
-		"(*os.File).Close":          func(e *Engine, _ *frame, _ token.Pos, a []Value) Value { return Iface{} },
-		"os.Exit":                   func(e *Engine, _ *frame, _ token.Pos, a []Value) Value { panic(exitPanic{asT(a[0])}) },
-		"os.Getwd":                  func(e *Engine, _ *frame, _ token.Pos, a []Value) Value { return Tuple{e.cwd, Iface{}} },
-		"runtime.GOMAXPROCS":        func(e *Engine, _ *frame, _ token.Pos, a []Value) Value { return cint(4) },
-		"fmt.Sprintf":               fmtSprintf,
-		"fmt.Errorf":                fmtErrorf,
-		"fmt.Printf":                func(e *Engine, _ *frame, _ token.Pos, a []Value) Value { return Tuple{cint(0), Iface{}} },
-		"fmt.Println":               func(e *Engine, _ *frame, _ token.Pos, a []Value) Value { return Tuple{cint(0), Iface{}} },
-		"fmt.Print":                 func(e *Engine, _ *frame, _ token.Pos, a []Value) Value { return Tuple{cint(0), Iface{}} },
-		"fmt.Fprintf":               func(e *Engine, _ *frame, _ token.Pos, a []Value) Value { return Tuple{cint(0), Iface{}} },
-		"fmt.Sprint":                fmtSprint,
-		"fmt.Sprintln":              func(e *Engine, fr *frame, p token.Pos, a []Value) Value { return fmtSprint(e, fr, p, a).(string) + "\n" },
-		"fmt.Fprintln":              func(e *Engine, _ *frame, _ token.Pos, a []Value) Value { return Tuple{cint(0), Iface{}} },
-		"fmt.Fprint":                func(e *Engine, _ *frame, _ token.Pos, a []Value) Value { return Tuple{cint(0), Iface{}} },
-		"encoding/binary.Read":      binaryRead,
-		"encoding/binary.Write":     binaryWrite,
-		"path/filepath.Abs":         filepathAbs,
+		"crypto/md5.Sum":          md5Sum,
+		"hash/crc32.ChecksumIEEE": crcIEEE,
+		"reflect.TypeOf": func(e *Engine, _ *frame, _ token.Pos, a []Value) Value {
+			return Iface{T: rtypeMarker, V: RType{a[0].(Iface).T}}
+		},
+		"internal/reflectlite.TypeOf": func(e *Engine, _ *frame, _ token.Pos, a []Value) Value {
+			return Iface{T: rtypeMarker, V: RType{a[0].(Iface).T}}
+		},
+		"reflect.DeepEqual":  func(e *Engine, _ *frame, _ token.Pos, a []Value) Value { return e.deepEqual(a[0], a[1]) },
+		"sort.Slice":         sortSlice,
+		"sort.SliceStable":   sortSlice,
+		"sort.SliceIsSorted": sortSliceIsSorted,
+		"sort.Ints":          sortInts,
+		"sort.Strings":       sortStrings,
+		"(*sync.WaitGroup).Add": func(e *Engine, _ *frame, _ token.Pos, a []Value) Value {
+			d := asT(a[1])
+			if d.IsConst() {
+				e.wgAdd += int(d.SVal())
+			} else {
+				if e.wgSym == nil {
+					e.wgSym = term.IntConst(0)
+				}
+				e.wgSym = term.IAdd(e.wgSym, toInt(d, types.Typ[types.Int]))
+			}
+			return nil
+		},
+		"(*sync.WaitGroup).Done":  func(e *Engine, _ *frame, _ token.Pos, a []Value) Value { e.wgAdd--; return nil },
+		"(*sync.WaitGroup).Wait":  wgWait,
+		"os.IsNotExist":           osIsNotExist,
+		"os.Lstat":                osStat,
+		"os.Stat":                 osStat,
+		"os.Open":                 osOpen,
+		"(*os.File).Readdirnames": osReaddirnames,
+		"(*os.File).Close":        func(e *Engine, _ *frame, _ token.Pos, a []Value) Value { return Iface{} },
+		"os.Exit":                 func(e *Engine, _ *frame, _ token.Pos, a []Value) Value { panic(exitPanic{asT(a[0])}) },
+		"os.Getwd":                func(e *Engine, _ *frame, _ token.Pos, a []Value) Value { return Tuple{e.cwd, Iface{}} },
+		"runtime.GOMAXPROCS":      func(e *Engine, _ *frame, _ token.Pos, a []Value) Value { return cint(4) },
+		"fmt.Sprintf":             fmtSprintf,
+		"fmt.Errorf":              fmtErrorf,
+		"fmt.Printf":              func(e *Engine, _ *frame, _ token.Pos, a []Value) Value { return Tuple{cint(0), Iface{}} },
+		"fmt.Println":             func(e *Engine, _ *frame, _ token.Pos, a []Value) Value { return Tuple{cint(0), Iface{}} },
+		"fmt.Print":               func(e *Engine, _ *frame, _ token.Pos, a []Value) Value { return Tuple{cint(0), Iface{}} },
+		"fmt.Fprintf":             func(e *Engine, _ *frame, _ token.Pos, a []Value) Value { return Tuple{cint(0), Iface{}} },
+		"fmt.Sprint":              fmtSprint,
+		"fmt.Sprintln": func(e *Engine, fr *frame, p token.Pos, a []Value) Value {
+			return fmtSprint(e, fr, p, a).(string) + "\n"
+		},
+		"fmt.Fprintln":          func(e *Engine, _ *frame, _ token.Pos, a []Value) Value { return Tuple{cint(0), Iface{}} },
+		"fmt.Fprint":            func(e *Engine, _ *frame, _ token.Pos, a []Value) Value { return Tuple{cint(0), Iface{}} },
+		"encoding/binary.Read":  binaryRead,
+		"encoding/binary.Write": binaryWrite,
+		"path/filepath.Abs":     filepathAbs,
 		"internal/bytealg.CountString": func(e *Engine, _ *frame, _ token.Pos, a []Value) Value {
 			n := 0
 			c := asT(a[1])
@@ -304,8 +326,8 @@ func init() {
 			}
 			return strings.ToLower(s)
 		},
-		"github.com/akalin/gopar/gf2p16.castTToByteSlice": castTToByte,
-		"github.com/akalin/gopar/gf2p16.castByteToTSlice": castByteToT,
+		"github.com/akalin/gopar/gf2p16.castTToByteSlice":           castTToByte,
+		"github.com/akalin/gopar/gf2p16.castByteToTSlice":           castByteToT,
 		"github.com/akalin/gopar/gf2p16.mulByteSliceLEUnsafe":       func(e *Engine, _ *frame, p token.Pos, a []Value) Value { return kernel(e, a, false, false, p) },
 		"github.com/akalin/gopar/gf2p16.mulAndAddByteSliceLEUnsafe": func(e *Engine, _ *frame, p token.Pos, a []Value) Value { return kernel(e, a, true, false, p) },
 		"github.com/akalin/gopar/gf2p16.mulSliceSSSE3Unsafe":        func(e *Engine, _ *frame, p token.Pos, a []Value) Value { return kernel(e, a, false, true, p) },
@@ -574,7 +596,10 @@ func (e *Engine) runTasks(fr *frame) {
 		e.call(fr, tasks[i].pos, tasks[i].fn, tasks[i].args)
 	}
 	e.curTask = -1
-	if e.wgAdd != 0 {
+	if e.wgSym != nil {
+		e.obligation(term.Eq(term.IAdd(e.wgSym, term.IntConst(int64(e.wgAdd))), term.IntConst(0)), "waitgroup-balance: Add count equals the number of workers that called Done", false)
+		e.wgSym, e.wgAdd = nil, 0
+	} else if e.wgAdd != 0 {
 		e.obligation(term.False, fmt.Sprintf("waitgroup-balance (counter %d after all tasks finished)", e.wgAdd), false)
 	}
 }
@@ -844,7 +869,7 @@ func kernel(e *Engine, a []Value, add, simd bool, pos token.Pos) Value {
 			e.obligation(term.ILt(term.IntConst(0), ai.Len), "asm-pre(scalar): len > 0", true)
 		}
 		e.res.KernelCalls = append(e.res.KernelCalls, fmt.Sprintf("%s in=%s[%s:+%s] out=%s[%s:+%s]", name, ai.ID, ai.Off, ai.Len, ao.ID, ao.Off, ao.Len))
-		e.absKernel = append(e.absKernel, absKernelCall{simd: simd, in: ai, out: ao})
+		e.absKernel = append(e.absKernel, absKernelCall{simd: simd, in: ai, out: ao, task: e.curTask})
 		return nil
 	}
 	n := e.sliceLen(in)
@@ -884,6 +909,40 @@ func kernel(e *Engine, a []Value, add, simd bool, pos token.Pos) Value {
 type absKernelCall struct {
 	simd    bool
 	in, out AbsSlice
+	task    int
+}
+
+// taskRangesPartition: the byte ranges on which the workers of the last
+// fork/join called the kernels are consecutive, non-empty and cover [0, total).
+func (e *Engine) taskRangesPartition(total *term.T) {
+	total = toInt(total, types.Typ[types.Int])
+	type rng struct{ off, end *term.T }
+	byTask := map[int]*rng{}
+	var order []int
+	for _, k := range e.absKernel {
+		off := k.out.Off
+		end := term.IAdd(k.out.Off, k.out.Len)
+		r := byTask[k.task]
+		if r == nil {
+			byTask[k.task] = &rng{off, end}
+			order = append(order, k.task)
+			continue
+		}
+		// several kernel calls of one worker (SIMD part + tail, several matrix entries): hull
+		r.off = term.Ite(term.ILt(off, r.off), off, r.off)
+		r.end = term.Ite(term.ILt(r.end, end), end, r.end)
+		e.obligation(term.Eq(k.in.Off, k.out.Off), "worker uses the same range of input and output", false)
+	}
+	sort.Ints(order)
+	cur := term.IntConst(0)
+	for _, t := range order {
+		r := byTask[t]
+		e.obligation(term.Eq(r.off, cur), "worker ranges are consecutive (each starts where the previous one ends)", false)
+		e.obligation(term.ILt(r.off, r.end), "worker range is non-empty", false)
+		cur = r.end
+	}
+	e.obligation(term.Eq(cur, total), "worker ranges cover the whole shard", false)
+	e.res.Reached[fmt.Sprintf("workers:%d", len(order))]++
 }
 
 // runLoopBody executes one iteration of the n-th loop of fn from an arbitrary
